@@ -3,6 +3,6 @@ From DS Require Import Word XXHash64 RunnerLib BloomDefs BloomProofs.
 Import ListNotations.
 Local Open Scope N_scope.
 
-Theorem C15_update_readonly_refused : forall f bits idx, f_ro f = true -> core_update f bits idx = None.
+Theorem C15_update_readonly_refused : forall fx f bits idx, f_ro f = true -> core_update fx f bits idx = None.
 Proof. exact core_update_ro. Qed.
 Print Assumptions C15_update_readonly_refused.
